@@ -5,6 +5,7 @@ import (
 	"bufio"
 	"encoding/json"
 	"io"
+	"strings"
 
 	"verifharness/world"
 )
@@ -33,6 +34,13 @@ func Run(s Script, base world.Cfg, opt Options, out io.Writer) (*world.World, er
 	if s.Evm != "" {
 		var err error
 		if w, err = world.NewWithEvm(cfg, s.Evm); err != nil {
+			if strings.Contains(err.Error(), "deployment reverted") {
+				// the real contract's constructor refuses the hub's own current signer set: an observation, not an
+				// environment failure (C08: what the hub emits must be executable)
+				enc := json.NewEncoder(out)
+				_ = enc.Encode(world.J{"k": "deployfail", "id": s.Id, "family": s.Family, "log": err.Error()})
+				return &world.World{}, nil
+			}
 			return nil, err
 		}
 	} else {
